@@ -475,7 +475,7 @@ class SimMCSResult:
 
 _fmcs_memo = {}
 _fmces_memo = {}
-BIG_BUDGET = 3600
+BIG_BUDGET = 60  # seconds; far above anything the pre-screened corpus needs (real budget: 1 s)
 
 
 def _fmcs_param_sig(p):
